@@ -262,6 +262,7 @@ func cmdCheck(args []string) {
 					}
 				}
 			}
+			fmt.Printf("FAILED obligation=%s status=%s where=%s\n", o.Name, sr.Status, o.Where)
 			if noInput {
 				body += "\nNo concrete failing input was obtained: the obligation could not be discharged (it was discharged on the unchanged tree).\n"
 			}
